@@ -316,8 +316,9 @@ Mutate(h, how) ==
   /\ Live(h) /\ ver[D(h)] < MaxMut
   /\ ver' = [ver EXCEPT ![D(h)] = @ + 1]
   /\ ideal' = [ideal EXCEPT ![h] = @ + 1]
+  /\ Materialise(h, IF how = "face_centers" THEN Needs("face_lon") \cup NodeLL ELSE {})
   /\ Obs("Mutate", h, <<how>>, <<>>, <<>>)
-  /\ UNCHANGED << ds, store, ball, kd, gdf, poly, line, jac, tmpl, exports >>
+  /\ UNCHANGED << ds, ball, kd, gdf, poly, line, jac, tmpl, exports >>
 
 \* the caller edits a dataset it got from to_xarray
 EditExport(e) ==
